@@ -166,6 +166,12 @@ def run_case(case):
     except Exception as e:
         import traceback
 
+        from sqlfluff.core.errors import SQLFluffUserError
+
+        if isinstance(e, SQLFluffUserError) or (isinstance(e, KeyError) and "Unknown dialect" in str(e)):
+            # the input's own inline '-- sqlfluff:' directive asks for an invalid configuration: a user error, reported as such
+            return {"status": "skip", "counters": {"user_config_error": 1}, "detail": repr(e)[:200]}
+
         tb = traceback.extract_tb(e.__traceback__)
         where = next((f"{os.path.basename(fr.filename)}:{fr.name}" for fr in reversed(tb) if "sqlfluff" in fr.filename), "?")
         fails.append({"sig": f"raised:{type(e).__name__}@{where}", "detail": {"err": repr(e)[:300], "mode": mode, "source": src[:400], "dialect": r["dialect"]}})
